@@ -15,9 +15,14 @@ import DclabModel.Lemmas.Copy
       witnesses: `unknown_feature_dropped_witness` (F23), `old_table_copy_drops_attrs_witness`
       (F09), `old_basin_copy_raises_witness` (F26), `empty_scalar_raises_witness` (F27, open);
 * `compress_preserves_data`, `compress_idempotent_on_data_partial`,
-  `repack_idempotent_on_data_partial`;
+  `repack_idempotent_on_data_partial`, `copy_output_has_no_unknown_feature`,
+  `idempotence_needs_surviving_basin_features_witness` (+ `empty_internal_witness_wellformed`);
 * `condense_scalar_set`, `condense_no_duplicates`, `condense_values`,
   `old_condense_raises_witness` (F28);
+* `compress_generations_keep_logs`, `compress_generations_distinct_names`,
+  `compress_equal_hash_collides` — command logs across `n` successive compress runs;
+* `tdms2rtdc_exact`, `tdms2rtdc_count`, `tdms2rtdc_index`, `tdms2rtdc_include_boundary_keeps_all`,
+  `tdms2rtdc_no_image_keeps_last` — exact characterisation of the boundary-image skipping;
 * `tdms2rtdc_rows`, `tdms2rtdc_sublist`, `bulk_features_independent`,
   `shared_feature_list_loses_features_witness`;
 * `setup_never_touches_input`, `setup_refuses_input_as_output`,
@@ -312,31 +317,40 @@ theorem compress_preserves_data (env : Env) (hook : Attrs → Attrs) (suffix : S
   simp only [logsView] at h3
   rw [h3]
 
+/-- closure, part 1 (unconditional): whatever the source and the options, the copy contains no
+    feature unknown to dclab — the guard `NoUnknownFeature` (F23) holds for every output -/
+theorem copy_output_has_no_unknown_feature (env : Env) (o : Opts) (src : File) :
+    NoUnknownFeature env (rtdcCopy env o src) := noUnknown_rtdcCopy env o src
+
 /-- applying compress to its own output changes no data.
-    Full statement (not proved): `WF env x → NoUnknownFeature env x → dataPart (compress (compress x))
-    = dataPart (compress x)`.  Missing: the derivation that the output of the first run is again
-    well-formed (`WF`), which needs that the features named by internal basins survive the copy
-    (stored, known, non-empty); here it is a hypothesis on the intermediate file, and the harness
-    checks idempotence on every generated file. -/
+    The statement without any hypothesis on the intermediate file is FALSE on the model and on the
+    real code (`idempotence_needs_surviving_basin_features_witness`, candidate finding F75): an
+    internal basin that lists a feature stored as an empty dataset is copied as it is while the
+    empty dataset is skipped, so the second run rewrites the definition.  What remains a hypothesis
+    is the well-formedness `WF` of the first run's output (its only non-trivial part: the features
+    named by internal basins survive the copy); `NoUnknownFeature` of the intermediate file is now
+    derived (`copy_output_has_no_unknown_feature`).  The harness checks idempotence on every
+    generated file. -/
 theorem compress_idempotent_on_data_partial (env : Env) (hook hook' : Attrs → Attrs) (sfx sfx' : String)
     (nl nl' : List (String × Dset)) (isCmd : String → Bool) (x : File)
     (hwf : WF env (compress env hook sfx nl x))
-    (hunk : NoUnknownFeature env (compress env hook sfx nl x))
     (hnew : ∀ kd, kd ∈ nl' → isCmd kd.1 = true)
     (hren : ∀ n, cmdLogNames.contains n = true →
       isCmd n = true ∧ isCmd (n ++ "_" ++ sfx') = true) :
     dataPart env isCmd (compress env hook' sfx' nl' (compress env hook sfx nl x))
       = dataPart env isCmd (compress env hook sfx nl x) :=
-  compress_preserves_data env hook' sfx' nl' isCmd _ hwf hunk hnew hren
+  compress_preserves_data env hook' sfx' nl' isCmd _ hwf (noUnknown_compress env hook sfx nl x)
+    hnew hren
 
 /-- `dclab-repack` with the same strip options applied to its own output changes nothing that
     is shown (same remark as for `compress_idempotent_on_data_partial`) -/
 theorem repack_idempotent_on_data_partial (env : Env) (sb sl : Bool) (x : File)
-    (hwf : WF env (repack env sb sl x)) (hunk : NoUnknownFeature env (repack env sb sl x)) :
+    (hwf : WF env (repack env sb sl x)) :
     let keep : String → Bool := fun n => !sb || !env.basinmap n
     viewWith env keep (repack env sb sl (repack env sb sl x))
       = viewWith env keep (repack env sb sl x) := by
   intro keep
+  have hunk : NoUnknownFeature env (repack env sb sl x) := noUnknown_rtdcCopy env _ x
   obtain ⟨h1, h2, h3, h4, h5, h6⟩ := rtdc_copy_preserves env
     { includeBasins := !sb, includeLogs := !sl } (repack env sb sl x) rfl rfl hwf hunk
   simp only [String.empty_append, List.map_id', if_true] at h2 h3 h4 h5 h6
@@ -351,6 +365,98 @@ theorem repack_idempotent_on_data_partial (env : Env) (sb sl : Bool) (x : File)
   · rw [show repack env sb sl (repack env sb sl x)
         = rtdcCopy env { includeBasins := !sb, includeLogs := !sl } (repack env sb sl x) from rfl, h6]
     cases sb <;> simp [repack, rtdcCopy, copyBasinEvents, dataView]
+
+/-- an internal basin that lists two features, one of them stored as an EMPTY dataset -/
+def wEmptyInternal : File :=
+  { events := [⟨"deform", .ds { rows := [[1], [2]] }⟩],
+    basinEvents := some [⟨"userdef0", .ds { rows := [] }⟩, ⟨"userdef1", .ds { rows := [[5]] }⟩],
+    basins := some [{ key := "k", internal := true, feats := ["userdef0", "userdef1"], rest := 1,
+                      body := { rows := [[123]] } }] }
+
+theorem empty_internal_witness_wellformed :
+    WF wEnv wEmptyInternal ∧ NoUnknownFeature wEnv wEmptyInternal := by
+  refine ⟨⟨?_, ?_, ?_, ?_⟩, ?_⟩
+  · intro d i hi
+    exact ⟨(0, d.rows.length), by simp [wEnv], Nat.zero_le _, hi⟩
+  · intro d hd hv
+    simp [allDsets, wEmptyInternal, nodeDsets] at hd
+    rcases hd with h | h | h | h <;> (subst h; cases hv)
+  · intro f hf
+    simp [wEmptyInternal] at hf
+    rcases hf with h | h <;> (subst h; decide)
+  · intro b hb
+    simp [wEmptyInternal] at hb
+    subst hb
+    decide
+  · intro f hf
+    simp [wEmptyInternal] at hf
+    rcases hf with h | h | h <;> (subst h; decide)
+
+/-- **the unconditional idempotence statement is false** (model and real code): the first run
+    copies the definition as it is but skips the empty dataset, so the second run no longer finds
+    `userdef0`, rewrites the definition (new key, shorter feature list) — the first run's output is
+    not well-formed although the input is -/
+theorem idempotence_needs_surviving_basin_features_witness :
+    basinsView (repack wEnv false false (repack wEnv false false wEmptyInternal)).basins
+      ≠ basinsView (repack wEnv false false wEmptyInternal).basins ∧
+    basinsView (repack wEnv false false wEmptyInternal).basins = basinsView wEmptyInternal.basins ∧
+    dataView (repack wEnv false false wEmptyInternal).basinEvents
+      = dataView wEmptyInternal.basinEvents := by decide
+
+/-! ### command logs across generations -/
+
+/-- **`n + 1` successive `dclab-compress` runs keep all `n + 1` command logs**: on a file without
+    command logs the logs group of generation `n + 1` is the user logs followed by the history —
+    run `j`'s log under `dclab-compress_<hash of the input of run j+1>` for `j < n` and the last
+    run's log under `dclab-compress`; nothing is lost or overwritten -/
+theorem compress_generations_keep_logs (env : Env) (hook : Attrs → Attrs) (sfx : Nat → String)
+    (cmd : Nat → Dset) (x : File) (hc : ∀ k, (cmd k).compressed = true)
+    (hu : ∀ kd, kd ∈ x.logs.getD [] → cmdLogNames.contains kd.1 = false) (n : Nat) :
+    (compressGen env hook sfx cmd (n + 1) x).logs
+      = some (copyLogs env {} (x.logs.getD []) ++ cmdHistory sfx cmd (n + 1)) ∧
+    (∀ j, j < n → ("dclab-compress" ++ "_" ++ sfx (j + 1), cmd j)
+      ∈ (compressGen env hook sfx cmd (n + 1) x).logs.getD []) ∧
+    ("dclab-compress", cmd n) ∈ (compressGen env hook sfx cmd (n + 1) x).logs.getD [] := by
+  have h := compressGen_logs env hook sfx cmd x hc hu n
+  refine ⟨h, ?_, ?_⟩
+  · intro j hj
+    rw [h, Option.getD_some]
+    apply List.mem_append_right
+    simp only [cmdHistory, List.mem_append, List.mem_map, List.mem_range]
+    exact Or.inl ⟨j, hj, rfl⟩
+  · rw [h, Option.getD_some]
+    apply List.mem_append_right
+    simp [cmdHistory]
+
+/-- … **under distinct names, given distinct hashes** of the intermediate files -/
+theorem compress_generations_distinct_names (sfx : Nat → String) (cmd : Nat → Dset) (n : Nat)
+    (hd : ∀ i j, i < n → j < n → sfx (i + 1) = sfx (j + 1) → i = j) :
+    ((cmdHistory sfx cmd (n + 1)).map (·.1)).Nodup := cmdHistory_names_nodup sfx cmd n hd
+
+/-- **equal hashes**: if the input of run `n + 2` has the hash of an earlier intermediate file,
+    the rename target `dclab-compress_<hash>` exists already — h5py refuses the link
+    (`renameCollides`), the task aborts; no log is silently overwritten -/
+theorem compress_equal_hash_collides (sfx : Nat → String) (cmd : Nat → Dset)
+    (u : List (String × Dset)) (n j : Nat) (hj : j < n) (he : sfx (j + 1) = sfx (n + 1)) :
+    renameCollides (sfx (n + 1)) (u ++ cmdHistory sfx cmd (n + 1)) = true := by
+  simp only [renameCollides, cmdLogNames, List.any_cons, Bool.or_eq_true]
+  left
+  simp only [Bool.and_eq_true, List.contains_iff_mem, List.mem_map]
+  refine ⟨⟨("dclab-compress", cmd n), ?_, rfl⟩,
+          ⟨("dclab-compress" ++ "_" ++ sfx (j + 1), cmd j), ?_, by rw [he]⟩⟩
+  · apply List.mem_append_right; simp [cmdHistory]
+  · apply List.mem_append_right
+    simp only [cmdHistory, List.mem_append, List.mem_map, List.mem_range]
+    exact Or.inl ⟨j, hj, rfl⟩
+
+/-- three runs with hashes a, b, c: three command logs under three names; with hashes a, b, b the
+    third run collides -/
+example : (cmdHistory (fun k => ["a", "b", "c"].getD k "") (fun k => { rows := [[k]], compressed := true }) 3).map (·.1)
+    = ["dclab-compress_b", "dclab-compress_c", "dclab-compress"] := by decide
+example : renameCollides "b" (cmdHistory (fun k => ["a", "b", "b"].getD k "")
+    (fun k => { rows := [[k]], compressed := true }) 2) = true := by decide
+example : renameCollides "c" (cmdHistory (fun k => ["a", "b", "c"].getD k "")
+    (fun k => { rows := [[k]], compressed := true }) 2) = false := by decide
 
 /-! ## 5. condense: which scalar features end up in the output -/
 
@@ -459,6 +565,44 @@ theorem tdms2rtdc_sublist (a b : Bool) (rows : List α) :
 example : tdms2rtdcRows true true [10, 11, 12, 13] = [11, 12] := by decide
 example : tdms2rtdcRows true false [10, 11, 12, 13] = [11, 12, 13] := by decide
 example : tdms2rtdcRows false true [10, 11, 12, 13] = [10, 11, 12] := by decide
+
+/-- **exact characterisation of the boundary-image skipping**: the exported events are the source
+    events without the first one iff the first flag is set and without the last one iff the second
+    flag is set — nothing else is dropped, reordered or duplicated, for every event count (also 0
+    and 1, where both flags hit the same event) -/
+theorem tdms2rtdc_exact (a b : Bool) (rows : List α) :
+    tdms2rtdcRows a b rows = tdmsKept a b rows := tdms2rtdcRows_closed a b rows
+
+/-- the number of exported events -/
+theorem tdms2rtdc_count (a b : Bool) (rows : List α) :
+    (tdms2rtdcRows a b rows).length = rows.length - a.toNat - b.toNat := by
+  rw [tdms2rtdc_exact]
+  cases a <;> cases b <;> simp [tdmsKept] <;> omega
+
+/-- event `i` of the output is event `i + a` of the source -/
+theorem tdms2rtdc_index (a b : Bool) (rows : List α) (i : Nat)
+    (hi : i < (tdms2rtdcRows a b rows).length) :
+    (tdms2rtdcRows a b rows)[i]? = rows[i + a.toNat]? := by
+  have hc := tdms2rtdc_count a b rows
+  rw [hc] at hi
+  rw [tdms2rtdc_exact]
+  cases a <;> cases b <;>
+    simp [tdmsKept, List.getElem?_dropLast, Nat.add_comm] at hi ⊢ <;> omega
+
+/-- with `--include-empty-boundary-images` (both options off) the two flags are off whatever the
+    data look like, so every event is exported -/
+theorem tdms2rtdc_include_boundary_keeps_all (h o c i l : Bool) (rows : List α) :
+    tdms2rtdcRows (skipFlags false false h o c i l).1 (skipFlags false false h o c i l).2 rows
+      = rows := by
+  simp [skipFlags, tdms2rtdc_rows]
+
+/-- without an image the final event is never dropped; without image and contour nothing is -/
+theorem tdms2rtdc_no_image_keeps_last (ini fin o c i l : Bool) :
+    (skipFlags ini fin false o c i l).2 = false ∧ (skipFlags ini fin false o false i l).1 = false := by
+  simp [skipFlags]
+
+example : tdms2rtdcRows true true [10] = ([] : List Nat) := by decide
+example : skipFlags true true true false false true true = (true, true) := by decide
 
 /-- bulk conversion: what is exported for a measurement depends on that measurement only -/
 theorem bulk_features_independent (ms : List (List String)) (i : Nat) :
